@@ -46,8 +46,18 @@ func matchKnown(kf []knownFinding, prop, obl string) *knownFinding {
 		base = base[:i] + ")"
 	}
 	for i := range kf {
-		if kf[i].prop == prop && (kf[i].obl == obl || kf[i].obl == base) {
+		if kf[i].prop != prop {
+			continue
+		}
+		if kf[i].obl == obl || kf[i].obl == base {
 			return &kf[i]
+		}
+		if strings.Contains(kf[i].obl, "*") {
+			// `*` stands for any run of characters (entries never cover more than one write site / clause)
+			pat := "^" + strings.ReplaceAll(regexp.QuoteMeta(kf[i].obl), `\*`, `.*`) + "$"
+			if ok, _ := regexp.MatchString(pat, obl); ok {
+				return &kf[i]
+			}
 		}
 	}
 	return nil
@@ -135,10 +145,12 @@ func report(eng *Engine, prop, tier, verif string, cfg *PropCfg, res *runResult,
 			}
 		}
 		fmt.Printf("selftest FAILED: no failing obligation matches %q (%d failures", expectFail, len(fails))
-		for _, f := range fails {
-			fmt.Printf(" %s", f.name)
+		for i, f := range fails {
+			if i < 8 {
+				fmt.Printf(" %s", f.name)
+			}
 		}
-		fmt.Println(")")
+		fmt.Println(" ...)")
 		return 1
 	}
 	// violations
